@@ -1,7 +1,11 @@
 (* C04 — exported files are well-formed modules holding exactly the requested types.  Statements only.
-   PROVED: the layout of every exported text and of every merged file; that the text parses under an
-   independent TypeScript grammar is DECIDED on every run by parsing the real files (tools/tsparse.py). *)
-From TsRs Require Import Base.Str Base.Outcome Gen.Tables Model.Case Model.TsAst Model.Rust Model.Docs Model.Gen Model.Path Model.Merge Model.GenExport Proofs.Export_shape_proofs.
+   PROVED: the layout of every exported text; that the text of every well-formed syntax tree / declaration /
+   export is derivable in an independent grammar of TypeScript's type syntax (Spec/TsGrammar.v: comments and
+   white space as trivia, reserved words, string literals without escapes, `|` / `&` / `[]` precedence,
+   object and mapped types, type aliases with defaulted parameters, `import type` and `export type`
+   statements), where well-formed is a DECIDABLE check (Spec/TsSyn.v) evaluated on every corpus export on
+   every run.  Besides, every real file is parsed by an independent reader (tools/tsparse.py). *)
+From TsRs Require Import Base.Str Base.Outcome Gen.Tables Model.Case Model.TsAst Model.Rust Model.Docs Model.Gen Model.Path Model.Merge Model.MergeSpec Model.GenExport Spec.TsFree Spec.TsSem Spec.TsGrammar Spec.TsSyn Proofs.Export_shape_proofs Proofs.Grammar_proofs Proofs.Grammar_export_proofs.
 From Coq Require Import List.
 Import ListNotations.
 
@@ -30,6 +34,60 @@ Theorem C04_field_name_quoting :
     raw_name_to_ts_field is_alnum is_numeric n = [34%N] ++ n ++ [34%N].
 Proof. exact field_name_quoting. Qed.
 
+(* every syntax tree passing the decidable check prints to a TypeScript type *)
+Theorem C04_printed_type_parses :
+  forall is_alnum is_numeric, classes_ok is_alnum is_numeric = true ->
+  forall t, syn_ok is_alnum is_numeric t = true -> ty is_alnum is_numeric (print t).
+Proof. exact print_in_grammar. Qed.
+
+(* every declaration passing the check prints to a type alias declaration *)
+Theorem C04_printed_decl_parses :
+  forall is_alnum is_numeric, classes_ok is_alnum is_numeric = true ->
+  forall d, decl_ok is_alnum is_numeric d = true -> alias is_alnum is_numeric (print_decl d).
+Proof. exact decl_in_grammar. Qed.
+
+(* every export whose pieces (import map, doc block, declaration) pass the check is a module: the notice (a
+   line comment), `import type` statements, the doc block (a comment), `export type ..;`, a newline *)
+Theorem C04_export_parses :
+  forall is_upper is_alnum is_numeric R esm cwd fuel t dir s,
+    classes_ok is_alnum is_numeric = true ->
+    export_string is_upper is_alnum is_numeric R esm cwd fuel t dir = Ok s ->
+    export_okb is_upper is_alnum is_numeric R esm cwd fuel t dir = true ->
+    module is_alnum is_numeric s.
+Proof. exact export_parses. Qed.
+
+(* a file holding several declarations: the canonical file of a set of items (the file every history exporting
+   them ends with: C05) is a module when every item's import groups pass the check and its block is a doc
+   comment, `export `, a type alias *)
+Theorem C04_merged_file_parses :
+  forall is_alnum is_numeric items,
+    Forall (fun i => forallb (group_okb is_alnum is_numeric) (it_imports i) = true /\
+                     block_ok is_alnum is_numeric (it_block i)) items ->
+    module is_alnum is_numeric (canonical_file items).
+Proof. exact canonical_file_in_grammar. Qed.
+
+(* the check is satisfiable by a declaration with documentation, quoted keys, a mapped type, a union of
+   literals, a defaulted parameter; and it rejects a name holding a double quote and a reserved word *)
+Example C04_syntax_check_nonvacuous :
+  let al := fun c => (is_ascii_upper c || is_ascii_lower c || is_ascii_digit c)%bool in
+  let hd := fun (k t : String.string) (q : bool) => {| p_docs := lit "/**
+ * doc
+ */
+"%string; p_key := lit k; p_text := lit t; p_optional := q |} in
+  let l := fun s : String.string => lit s in
+  let body := TObj OStruct [(hd "a" "a" true, TUnion [TPrim (l "number"); TPrim (l "null")]);
+                            (hd "b-c" """b-c""" false, TMapped (TPrim (l "string")) (TArray (TVar (l "T"))));
+                            (hd "k" "k" false, TUnion [TLit (l "x"); TLit (l "y z")])]%string in
+  classes_ok al is_ascii_digit = true /\
+  decl_ok al is_ascii_digit {| d_docs := []; d_name := l "Foo"%string; d_params := [(l "T"%string, Some (TRef (l "Bar"%string) [TPrim (l "bigint"%string)]))]; d_body := body |} = true /\
+  decl_ok al is_ascii_digit {| d_docs := []; d_name := l "break"%string; d_params := []; d_body := TPrim (l "null"%string) |} = false /\
+  syn_ok al is_ascii_digit (TLit (l "a""b"%string)) = false.
+Proof. repeat split; vm_compute; reflexivity. Qed.
+
 Print Assumptions C04_export_layout.
+Print Assumptions C04_printed_type_parses.
+Print Assumptions C04_printed_decl_parses.
+Print Assumptions C04_export_parses.
+Print Assumptions C04_merged_file_parses.
 Print Assumptions C04_decl_shape.
 Print Assumptions C04_field_name_quoting.
